@@ -22,6 +22,7 @@ RULE = (
     "inactive, 4 steps; diffusion scripts with 0, 1, 2 deviations from {+-0.7, +-3 cells} on a slice; Model runs on ROMS forcing for the invariants; "
     "non-trivial = run in which at least one particle left the grid or had a move onto land cancelled; lattice points distinct by construction"
 )
+RULE += " Beyond the lattice (chosen scenarios, not enumerated): a 260x300 grid with land and open boundary where flat cell numbers exceed 2**15 and 2**16; draw-structure-agnostic diffusion oracle (assignment search)."
 ASSUMPTIONS = [
     "valid region = the grid's documented +-1/2 margin inside the loaded rectangle",
     "positions are chosen off the exact half-cell lines so that the particle's cell is unambiguous",
